@@ -329,14 +329,15 @@ def add_chain_allreduce(rng, sc, ranks=None, n_groups=2, interleave=True, incomp
             t = dev[0]
             a = {"DmaI": 0, "Cmpt Prep": 1, "Cmpt Exec": 2, "DmaO": 3}.get(t["kind"], 0)
             H = Fraction(t["start"]) - Fraction(t["true_ts"][a], f)
-            assert H.denominator == 1
-            sc.hbase[r] = [int(H), None]
+            assert 2048 % H.denominator == 0
+            sc.hbase[r] = [H, None]
         else:
-            sc.hbase[r] = [rng.randrange(1 << 10, 1 << 20), None]
+            sc.hbase[r] = [Fraction(rng.randrange(1 << 10, 1 << 20)), None]
     origin = int(t_end) + 1 + rng.randrange(1, 50)       # common host time (integer us) of global cycle 0
     for r in range(R):
         H = sc.hbase[r][0]
-        sc.hbase[r] = (H, (origin - H) * f)              # host(r, cyc) = H + ((origin-H)*f + cyc)/f = origin + cyc/f
+        c0 = -((-(origin - H) * f) // 1)                 # ceil: rank clocks agree up to less than one cycle
+        sc.hbase[r] = (float(H), int(c0))                # host(r, cyc) = H + (c0 + cyc)/f  in [origin, origin + 1/f) + cyc/f
     bld = _Builder(rng, sc, list(range(R)), hexfmt)
     bld.uid = 100000
     _emit_groups(bld, sc, rng, list(range(R)), n_groups, interleave, incomplete_tail, rng.randrange(2100, 9000),
